@@ -73,6 +73,9 @@ class GradeScopeEnvironment(Environment):
         self.skip_run = skip_run
         self.skip_tifa = skip_tifa
         self.trace = trace
+        # The maximum score is module-level state: every grading starts
+        # from the default, whatever an earlier instructor script chose.
+        set_maximum_score(1)
         report.set_formatter(Formatter(report))
         verify(report=self.report)
         if not skip_tifa:
